@@ -69,6 +69,8 @@ class Universe:
         self.oblig = {}     # id -> {'props': [...], 'file':, 'fn':, 'text':, 'kind':}
         self.fn_nopanic = {}  # (file, fnname) -> obligation id
         self.contracted = {}  # (file, fnpath)
+        self.fn_external = {}  # (file, fnpath) -> body not verified (external_body / trait declaration)
+        self.assumed = {}      # tagged ensures clauses of external_body functions: assumptions, not obligations
         for fname, blocks in info['blocks'].items():
             for b in blocks:
                 fnpath = None
@@ -84,7 +86,22 @@ class Universe:
                             'text': 'every arithmetic operation, index, slice, unwrap and callee precondition in the real body of %s is proved safe' % fnpath}
                         self.fn_nopanic[(fname, last_seg(fnpath))] = oid
                 seen = {}
+                external = b['directive'] == 'fn' and any('external_body' in l and not l.strip().startswith('##') for l in b['lines'])
+                if b['directive'] == 'fn':
+                    self.fn_external[(fname, fnpath)] = external or fnpath.startswith('trait:')
+                section = {}
+                cursec = None
+                for off, l in enumerate(b['lines']):
+                    t = l.strip()
+                    if re.match(r'(#\[verus_spec\(.*)?\brequires\b', t) or t.startswith('requires'):
+                        cursec = 'requires'
+                    if t.startswith('ensures'):
+                        cursec = 'ensures'
+                    section[off] = cursec
                 for off, (oid, props) in sorted(((int(k), v) for k, v in b['tags'].items())):
+                    if external and section.get(off) == 'ensures':
+                        self.assumed.setdefault(oid, {'props': props, 'file': fname, 'fn': fnpath, 'text': b['lines'][off].strip()})
+                        continue
                     seen.setdefault(oid, []).append(b['lines'][off].strip())
                     if oid not in self.oblig:
                         self.oblig[oid] = {'props': props, 'file': fname, 'fn': fnpath, 'kind': b['directive'], 'text': ''}
@@ -207,19 +224,15 @@ def scan_trusted(woven_dir):
     return items, counts
 
 
-def run_verus(woven_dir, tier, log_dir):
+def _verus(woven_dir, extra):
     cmd = ['verus', '--crate-type=lib', 'lib.rs', '--no-trait-conflicts', '--cfg', 'feature="client"',
-           '--output-json', '--time-expanded', '--error-format=json', '--multiple-errors', '10',
-           '--rlimit', '30' if tier == 'thorough' else '20', '--num-threads', '16']
-    t0 = time.time()
+           '--output-json', '--time-expanded', '--error-format=json'] + extra
     p = subprocess.run(cmd, cwd=woven_dir, stdout=subprocess.PIPE, stderr=subprocess.PIPE, text=True)
-    wall = time.time() - t0
     try:
         out = json.loads(p.stdout)
     except Exception:
         out = None
-    diags = []
-    other = []
+    diags, other = [], []
     for line in p.stderr.split('\n'):
         if not line.strip():
             continue
@@ -231,7 +244,64 @@ def run_verus(woven_dir, tier, log_dir):
                 other.append(line)
         except Exception:
             other.append(line)
-    return {'cmd': ' '.join(cmd), 'rc': p.returncode, 'out': out, 'diags': diags, 'other': other, 'wall': wall}
+    return cmd, p.returncode, out, diags, other
+
+
+def _breakdown(out):
+    res = {}
+    for m in (out or {}).get('times-ms', {}).get('smt', {}).get('smt-run-module-times', []):
+        for fb in m.get('function-breakdown', []):
+            res[fb['function']] = {'success': fb['success'], 'time_ms': fb['time'], 'rlimit': fb['rlimit'], 'module': m['module']}
+    return res
+
+
+def run_verus(woven_dir, tier, log_dir):
+    """Phase 1: the whole crate, at most 2 errors per function (fast; on an unchanged tree this is all).
+    Phase 2: every function that failed or ran out of resources is re-verified alone with a larger resource
+    limit and up to 8 errors, so that every failing obligation of it gets named."""
+    t0 = time.time()
+    rl1 = '30' if tier == 'thorough' else '20'
+    cmd, rc, out, diags, other = _verus(woven_dir, ['--multiple-errors', '2', '--rlimit', rl1, '--num-threads', '16'])
+    vr = {'cmd': ' '.join(cmd), 'rc': rc, 'out': out, 'diags': diags, 'other': other, 'phase2': []}
+    fns = _breakdown(out)
+    vr['fn_results'] = fns
+    failing = sorted(k for k, v in fns.items() if not v['success'])
+    vres = (out or {}).get('verification-results', {})
+    if failing and not vres.get('encountered-vir-error') and 'verified' in vres:
+        import concurrent.futures
+
+        def redo(fn):
+            mod = fns[fn]['module']
+            pat = fn[len('lib::%s::' % mod):] if fn.startswith('lib::%s::' % mod) else fn
+            extra = ['--multiple-errors', '8', '--rlimit', '120', '--num-threads', '2']
+            extra += (['--verify-only-module', mod] if mod else ['--verify-root'])
+            extra += ['--verify-function', pat]
+            return fn, _verus(woven_dir, extra)
+
+        with concurrent.futures.ThreadPoolExecutor(max_workers=8) as ex:
+            results = list(ex.map(redo, failing[:16]))
+        # keep phase-1 diagnostics that do not belong to a re-verified function; take the re-verified ones from phase 2
+        redone_ok = {}
+        for fn, (cmd2, rc2, out2, diags2, other2) in results:
+            b2 = _breakdown(out2)
+            if out2 is not None and fn in b2:
+                redone_ok[fn] = (diags2, b2[fn])
+                vr['phase2'].append({'function': fn, 'cmd': ' '.join(cmd2), 'result': b2[fn]})
+        if redone_ok:
+            short = {fn: re.sub(r'^.*::(_VERUS_VERIFIED_)?', '', fn) for fn in redone_ok}
+            keep = []
+            for d in diags:
+                keep.append(d)
+            # phase-1 error diagnostics cannot be attributed to a function reliably without spans; simplest sound
+            # merge: drop ALL phase-1 error diagnostics when every failing function was re-verified, else keep them too
+            if len(redone_ok) == len(failing):
+                keep = [d for d in diags if d.get('level') != 'error']
+            for fn, (diags2, b2) in redone_ok.items():
+                keep += [d for d in diags2 if d.get('level') == 'error' and not d['message'].startswith('aborting due to')]
+                fns[fn] = b2
+            vr['diags'] = keep
+    vr['wall'] = time.time() - t0
+    return vr
 
 
 def analyse(info, uni, vr):
@@ -243,9 +313,7 @@ def analyse(info, uni, vr):
         res['inconclusive'].append('verus produced no JSON output: ' + ' | '.join(vr['other'][:5]))
         return res
     vres = out.get('verification-results', {})
-    for m in out.get('times-ms', {}).get('smt', {}).get('smt-run-module-times', []):
-        for fb in m.get('function-breakdown', []):
-            res['fn_results'][fb['function']] = {'success': fb['success'], 'time_ms': fb['time'], 'rlimit': fb['rlimit'], 'module': m['module']}
+    res['fn_results'] = dict(vr.get('fn_results') or _breakdown(out))
     errors = [d for d in vr['diags'] if d['level'] == 'error' and not d['message'].startswith('aborting due to')]
     if vres.get('encountered-vir-error') or 'verified' not in vres:
         res['compile_error'] = True
@@ -292,7 +360,7 @@ def decide(pid, uni, ana, known):
             new[oid] = descs
     # functions hosting this property's obligations must have been verified (vacuity / completeness guard)
     inconclusive = list(ana['inconclusive'])
-    hosts = sorted(set((o['file'], o['fn']) for o in obl.values() if o['fn']))
+    hosts = sorted(set((o['file'], o['fn']) for o in obl.values() if o['fn'] and not uni.fn_external.get((o['file'], o['fn']))))
     host_results = []
     for (fname, fnpath) in hosts:
         keys = [k for k in ana['fn_results'] if fn_key_matches(k, fname, fnpath)]
@@ -402,6 +470,7 @@ def main():
                     'samples': [{'obligation': k, 'function': v['fn'], 'clause': v['text']} for k, v in sorted(obl.items())][:40],
                     'all_obligation_ids': sorted(obl),
                     'known_findings_hit': sorted(known_hit),
+                    'assumed_contract_clauses': [{'clause': k, 'function': v['fn'], 'text': v['text']} for k, v in sorted(uni.assumed.items()) if pid in v['props']],
                     'inconclusive': inconclusive[:10],
                     'verus_wall_s': round(vr['wall'], 2),
                 },
